@@ -353,7 +353,7 @@ fn check_fields(c: &H2Case, procs: &HttpProcessors, fields: &[crate::gen::h2::Fi
 pub fn pre_frame(request: bool) -> impl Strategy<Value = PreFrame> {
     let _ = request;
     prop_oneof![
-        3 => proptest::collection::vec((prop_oneof![1u16..7, any::<u16>()], any::<u32>()), 0..7).prop_map(PreFrame::Settings),
+        3 => proptest::collection::vec((prop_oneof![3 => 1u16..7, 1 => any::<u16>()], prop_oneof![2 => prop_oneof![Just(0u32), Just(1u32), Just(40u32), Just(100u32), Just(4096u32), Just(16384u32), Just(65536u32)], 1 => any::<u32>()]), 0..7).prop_map(PreFrame::Settings),
         1 => Just(PreFrame::SettingsAck),
         2 => (prop_oneof![Just(0u32), 1u32..9], 1u32..0x7fff_ffff).prop_map(|(s, i)| PreFrame::WindowUpdate(s, i)),
         2 => ((1u32..20), h2::priority_spec()).prop_map(|(s, p)| PreFrame::Priority(s, p)),
